@@ -207,6 +207,17 @@ def vector_run(eng, n, path, scenario):
     if scenario != 'nocache':
         compare(op.linform_vector(elems=A, use_mp=use_mp), A, 'second call, same list (%s cache)' % scenario)
         compare(op.linform_vector(elems=B, use_mp=use_mp), B, 'other list of the same length against the same cache')
+        # another problem (other initial datum) on the same curve, same elements, same cache directory
+        op2 = IP.InitialOperator.__new__(IP.InitialOperator)
+        op2.bdr_mesh, op2.cache_dir, op2.problem = op.bdr_mesh, op.cache_dir, 'Q'
+        op2.linform = lambda e: (eng.apply('lin2', SR.lift(e.time_interval[0]), SR.lift(e.time_interval[1]),
+                                           SR.lift(e.space_interval[0]), SR.lift(e.space_interval[1])), [])
+        v2 = op2.linform_vector(elems=A, use_mp=use_mp)
+        for j, e in enumerate(A):
+            ok, _ = eng.prove_identity(v2[j], op2.linform(e)[0], 'other problem')
+            if not ok:
+                bad.append('another problem on the same curve and elements got the cached vector of the first problem')
+                break
     return bad, len(fs.loads), len(fs.saves)
 
 
@@ -343,6 +354,12 @@ def replay(rp):
                     if wrong(op.linform_vector(elems=A, use_mp=use_mp), A):
                         return True
                     if wrong(op.linform_vector(elems=B, use_mp=use_mp), B):
+                        return True
+                    op2 = IP.InitialOperator.__new__(IP.InitialOperator)
+                    op2.bdr_mesh, op2.cache_dir, op2.problem = op.bdr_mesh, op.cache_dir, 'Q'
+                    op2.linform = lambda e: (1000.0 + hash((e.time_interval, e.space_interval)) % 1000 / 7.0, [])
+                    v2 = op2.linform_vector(elems=A, use_mp=use_mp)
+                    if len(v2) != len(A) or any(float(v2[j]) != op2.linform(e)[0] for j, e in enumerate(A)):
                         return True
                 return False
             except Exception:
